@@ -175,6 +175,11 @@ struct C11 : Profile {
       static const char* routes[] = {"parse", "parse", "capi", "interactive"};
       rej.push_back(json{{"text", enc(d)}, {"route", routes[r.below(4)]}, {"damage", desc}});
     }
+    // an accepted redefinition in front of the rejected texts (both contexts take it): what a later rejection restores must be the accepted state, not an older one
+    if (r.chance(0.3) && !p.ast["funcs"].empty()) {
+      std::string acc; for (auto& f : p.ast["funcs"]) { std::string d = "function " + f["n"].get<std::string>() + "("; bool first = true; for (auto& pa : f["params"]) { if (!first) d += ", "; first = false; d += pa["n"].get<std::string>(); }
+        d += ") return " + std::string(f.value("ret", "") == "int" ? "integer" : "string") + " is\nbegin\n  return " + (f.value("ret", "") == "int" ? std::string("77") : std::string("\"accepted redefinition\"")) + ";\nend;\n"; if (r.chance(0.7)) acc += d; }
+      if (!acc.empty()) { json nr = json::array(); nr.push_back(json{{"text", enc(acc)}, {"route", r.chance(0.5) ? "parse" : "capi"}, {"damage", "none (accepted redefinition)"}}); for (auto& x : rej) nr.push_back(x); rej = nr; } }
     plan["rejects"] = rej;
     return plan;
   }
